@@ -103,9 +103,15 @@ pub fn exec(case: &Value) -> Vec<Value> {
 pub fn gen(seed: u64, n: usize) -> Vec<Value> {
     let mut rng = ChaCha8Rng::seed_from_u64(seed);
     let pool = ["a", "b", " ", "ä", "ß", "€", "字", "😀", "🇩🇪", "e\u{0301}", "👨\u{200D}👩\u{200D}👧", "\r\n", "\t", "\u{0301}", "न", "म", "स्", "ते"];
+    // short texts with one cluster of 261 bytes (lengths that do not fit into a byte)
+    let with_giant = ["a", "ä", " ", giant_cluster(), "😀"];
     let ascii = ["a", "b", " ", "\r\n", "\t", "z", "\r", "\n"];
     (0..n)
         .map(|_| {
+            if rng.random_bool(0.05) {
+                let s: String = (0..rng.random_range(1..=5)).map(|_| with_giant[rng.random_range(0..with_giant.len())]).collect();
+                return json!({"s": s, "g": true});
+            }
             let len = rng.random_range(0..=30);
             let pure = rng.random_bool(0.25);
             let s: String = (0..len)
